@@ -21,21 +21,36 @@ RULE = ("case = (transfer kind in {expedited/segmented download with/without siz
         "with/without size, block download, block upload}, payload length on both sides of the framing "
         "boundaries, ordinal k of the server->client frame to disturb, disturbance in {drop; replace by "
         "abort(code); flip toggle; wrong command specifier; wrong multiplexer (frames that carry one); duplicate "
-        "at once; duplicate delivered after the next request; stale frame injected before the request / "
-        "between request k and its response; dropped response delivered late - after the timed-out call or "
-        "between the follow-up's request and response}, peer in {reference server, canopen's SdoServer}), then "
-        "an undisturbed follow-up transfer. Oracle: normal return => exact data (upload) / exact commit "
-        "(download); otherwise SdoCommunicationError or SdoAbortedError (with the injected code for abort "
-        "disturbances); a lost response => abort frame 80 00 00 00 00 00 04 05 from the client; follow-up "
-        "succeeds with exact data. Excluded and counted: injected frames no CiA 301 client can tell from the "
-        "expected response (same specifier and toggle / multiplexer / sequence number). Non-trivial = the "
-        "disturbance actually hit; distinct = canonical JSON.")
+        "at once; duplicate delivered after the next request; stale frame (responses of every type incl. abort "
+        "frames) injected before the request / between request k and its response; dropped response delivered "
+        "late - after the timed-out call or between the follow-up's request and response}, peer in {reference "
+        "server, canopen's SdoServer}), then an undisturbed follow-up transfer. Families: (1) kind x length x "
+        "ordinal x disturbance x peer; (2) the same for the kinds run against both peers with the follow-up "
+        "kinds family 1 does not pair with that peer; (3) block upload x every ordinal incl. the last segments "
+        "of a 127-segment sub-block, the second sub-block and the end response x disturbance x server CRC "
+        "support off/on x size announced or not; (4) stale abort frames at every request of every kind; "
+        "Hypothesis: random cases of all kinds + block uploads with CRC off half of the time, any ordinal, stale "
+        "frames shaped like block segments. Oracle: normal return => exact data (upload) / exact commit "
+        "(download; an injected abort models a server that aborted, so nothing is committed then); otherwise "
+        "SdoCommunicationError or SdoAbortedError (with the injected code for abort disturbances); a lost "
+        "response => abort frame 80 .. 00 00 04 05 from the client whether the call raises or returns (only a "
+        "block upload that completes by retransmission after losing a block SEGMENT owes none); follow-up "
+        "succeeds with exact data. Excluded and counted: injected / duplicated frames no CiA 301 client can "
+        "tell from the response it is waiting for (same specifier and toggle / multiplexer / sub-command / "
+        "block sequence number), and wrong data after an ALTERED frame that differs from the genuine one only "
+        "in a field nothing but the CRC covers (n of a block upload end, c flag of a block segment) while no CRC "
+        "is in effect. Wrong data after any other disturbance of a block upload is a violation, CRC or not. "
+        "Non-trivial = the disturbance actually hit; distinct = canonical JSON.")
 ASSUMPTIONS = [
     "RESPONSE_TIMEOUT is set to 3 ms (public class attribute); delivery is inline so only dropped frames time out",
     "a stale or duplicated frame that has the same command specifier and toggle bit (segments), multiplexer "
-    "(initiate responses) or sequence number (block segments) as the genuine response is indistinguishable "
-    "by protocol and excluded",
+    "(initiate responses), sub-command (block responses) or sequence number (block segments) as the genuine "
+    "response the client is waiting for at that point is indistinguishable by protocol and excluded; a frame "
+    "with another sequence number / sub-command / specifier is distinguishable also when no CRC is negotiated",
     "wrong-multiplexer disturbances are applied only to frames that carry a multiplexer",
+    "only block upload segments can be recovered after a loss (retransmission request); every other response "
+    "is awaited in lock step, so its loss must end in the time-out abort",
+    "an abort frame in place of a download response means the server did not write the object",
 ]
 BUDGET = {"quick": 150, "thorough": 420}
 NODE = 2
@@ -46,6 +61,7 @@ KINDS = ["exp_dl", "seg_dl_size", "seg_dl_nosize", "exp_ul", "exp_ul_nosize", "s
          "blk_dl", "blk_ul"]
 IDX, SUB = 0x2000, 0
 IDX2, SUB2 = 0x2001, 0
+DOWNLOADS = ("exp_dl", "seg_dl_size", "seg_dl_nosize", "blk_dl")
 
 
 def payload(n, salt):
@@ -161,8 +177,10 @@ def confusable(F, R, phase):
     if F[0] == 0x80 or R[0] == 0x80:
         return False
     if phase == "blkseg":
-        # same sequence number: only the CRC can tell, so this is settled by the caller (run_case)
-        return False
+        # a block upload segment is identified by its sequence number alone: a different frame with
+        # the sequence number the client is waiting for (other data, other c flag) can only be told
+        # by the CRC - run_case settles whether one was in effect
+        return (F[0] & 0x7F) == (R[0] & 0x7F)
     sf, sr = F[0] >> 5, R[0] >> 5
     if sf != sr:
         return False
@@ -195,6 +213,10 @@ class Disturber:
         self.arm_between = False
         self.mux_na = False
         self.stale_abort = False
+        self.crc_only = False    # an injected block segment only the CRC can tell from the genuine one
+        self.hit_phase = None    # phase of the genuine frame the disturbance was applied to
+        self.altered = None      # (frame put on the bus, genuine frame it replaces, phase)
+        self.is_dl = case["kind"] in DOWNLOADS
 
     def phase(self):
         st_ = self.rig.server_state()
@@ -215,6 +237,7 @@ class Disturber:
                 return [fr]
             d = bytearray(fr.data)
             self.hit = bytes(fr.data)
+            self.hit_phase = ph
             if what in ("drop", "late_before", "late_between"):
                 if what != "drop":
                     self.late = bytes(fr.data)
@@ -223,10 +246,15 @@ class Disturber:
                 # models a server that aborted: the reference peer forgets the transfer too
                 if self.rig.peer == "ref":
                     self.rig.srv._reset()
+                if self.is_dl:
+                    # ... and a server that aborts a download has not written the object, also when
+                    # the abort takes the place of the confirmation of the last step
+                    self.rig.clear(IDX, SUB)
                 mux = d[1:4] if carries_mux(d, self.kind, ph) else bytes(3)
                 return [self._mk(bytes([0x80]) + bytes(mux) + struct.pack("<L", self.dist["code"]), fr)]
             if what == "toggle":
                 d[0] ^= 0x10
+                self.altered = (bytes(d), bytes(fr.data), ph)
                 return [self._mk(bytes(d), fr)]
             if what == "cs":
                 scs = d[0] >> 5
@@ -234,6 +262,7 @@ class Disturber:
                 if new == 4:
                     new = 7
                 d[0] = (new << 5) | (d[0] & 0x1F)
+                self.altered = (bytes(d), bytes(fr.data), ph)
                 return [self._mk(bytes(d), fr)]
             if what == "mux":
                 if not carries_mux(d, self.kind, ph):
@@ -243,8 +272,11 @@ class Disturber:
                     return [fr]
                 which = self.dist.get("delta", 0) % 3
                 d[1 + which] ^= 1 << (self.dist.get("delta", 0) % 8)
+                self.altered = (bytes(d), bytes(fr.data), ph)
                 return [self._mk(bytes(d), fr)]
             if what == "dup_now":
+                # the copy arrives where the client waits for the genuine frame after this one
+                self.injected.append((bytes(fr.data), len(self.responses)))
                 return [fr, self._mk(bytes(fr.data), fr)]
             if what == "dup_later":
                 self.pending_dup = bytes(fr.data)
@@ -281,15 +313,37 @@ class Disturber:
         self.injected.append((bytes(data), len(self.responses)))
         return Frame(TX, bytes(data), ts=self.rig.hub.now(), src=self.rig.sport)
 
-    def undecidable(self):
+    def undecidable(self, crc_on=False):
         """True when an injected frame could not be told from the genuine
-        response that followed it by any client."""
+        response that followed it by any client.  A block upload segment with the expected sequence
+        number is told by the CRC when one is in effect (crc_on): that is not settled here but noted in
+        ``crc_only`` for run_case."""
         for data, pos in self.injected:
             if pos < len(self.responses):
                 r, ph = self.responses[pos]
                 if confusable(data, r, ph):
+                    if ph == "blkseg" and crc_on:
+                        self.crc_only = True
+                        continue
                     return True
         return False
+
+    def extra_frame_heads_subblock(self, nseg):
+        """True when a duplicated / stale frame was queued directly in front of the first segment of a block
+        upload sub-block that is not the last one (see the known defect in run_case)."""
+        for data, pos in self.injected:
+            if pos < len(self.responses):
+                r, ph = self.responses[pos]
+                before = sum(1 for _, p in self.responses[:pos] if p == "blkseg")
+                if ph == "blkseg" and (r[0] & 0x7F) == 1 and before + 127 < nseg:
+                    return True
+        return False
+
+    def altered_confusable(self):
+        """True when the frame that replaced the genuine one (toggle / cs / mux disturbance) differs from
+        it only in a way no client can see: a reserved bit, the n field of a block upload end, the c flag
+        of a block segment (the sequence number being the expected one)."""
+        return self.altered is not None and confusable(*self.altered)
 
 
 def run_case(case) -> Outcome:
@@ -323,15 +377,22 @@ def run_case(case) -> Outcome:
     if dis.hit is None:
         return Outcome(excluded="disturbance point beyond the end of the transfer" if not dis.mux_na
                        else "frame carries no multiplexer")
-    if dis.undecidable():
+    crc_on = kind == "blk_ul" and peer == "ref" and rig.srv.crc_support
+    if dis.undecidable(crc_on):
         return Outcome(excluded="injected frame indistinguishable by protocol from the genuine response")
-    if kind == "blk_ul" and res[0] == "ok" and res[1] != data:
-        from harness.refcodec import crc16_xmodem
-        if not (peer == "ref" and rig.srv.crc_support) or crc16_xmodem(res[1]) == crc16_xmodem(data):
-            # a block segment with the expected sequence number but other data can only be told by the
-            # CRC: undetectable when no CRC is in effect or when the checksums collide
-            return Outcome(excluded="block upload corrupted in a way only a CRC could reveal, and none "
-                                    "was in effect (or the CRC-16 collides)")
+    nseg = max(1, (n + 6) // 7)
+    if res[0] == "ok" and (dis.altered_confusable() or dis.crc_only):
+        wrong = (rig.committed(IDX, SUB) != data) if is_dl else (res[1] != data)
+        if wrong:
+            from harness.refcodec import crc16_xmodem
+            if is_dl or not crc_on or crc16_xmodem(res[1]) == crc16_xmodem(data):
+                # the altered (or, for block segments, injected) frame was a well-formed response of the
+                # expected type with the expected toggle / multiplexer / sequence number: what it changed (n
+                # field of a block upload end, c flag or data of a block segment) is covered by the CRC only.
+                # Wrong data after any OTHER disturbance (a frame the protocol can tell: dropped, duplicated,
+                # stale, other sequence number / toggle / specifier / sub-command) is judged below, CRC or not.
+                return Outcome(excluded="frame altered in a way only a CRC could reveal, and none was in "
+                                        "effect (or the CRC-16 collides)")
 
     def bad(kindname, detail):
         D.append(Discrepancy(f"C07/{kindname}", f"{tag}: {detail}"))
@@ -355,11 +416,18 @@ def run_case(case) -> Outcome:
             bad("abort/code", f"raised code {e.code:08x}, injected {case['dist']['code']:08x}")
         elif what == "abort" and not e.is_a(SdoAbortedError):
             bad("abort/not-aborted-error", f"{e}")
-        # an abort frame with the time-out code; the multiplexer bytes are not the property's subject
-        # (the library sends 0000:00 today, CiA 301 asks for the multiplexer of the transfer)
-        if what in ("drop", "late_before", "late_between") and not any(
+    if what in ("drop", "late_before", "late_between"):
+        # "a lost response makes the client emit an abort frame with the time-out code" - whatever the call
+        # reports afterwards. The one exception the protocol itself provides: a lost block upload SEGMENT
+        # may be recovered by asking for retransmission (CiA 301 block upload sub-block confirm), so a block upload that
+        # completes after losing a segment owes no abort; every other response is awaited in lock step
+        # and cannot be recovered. The multiplexer bytes of the abort are not the property's subject
+        # (the library sends 0000:00 today, CiA 301 asks for the multiplexer of the transfer).
+        recovered = outcome == "completed" and kind == "blk_ul" and dis.hit_phase == "blkseg"
+        if not D and not recovered and not any(
                 bytes(f)[:1] == b"\x80" and bytes(f)[4:8] == TIMEOUT_ABORT[4:8] for f in client_frames):
-            bad(f"{what}/no-timeout-abort", f"response lost, {e.cls.__name__} raised, but the client sent "
+            how = f"{res[1].cls.__name__} raised" if res[0] == "exc" else "the call returned normally"
+            bad(f"{what}/no-timeout-abort", f"response lost, {how}, but the client sent "
                 f"no abort 0x05040000 (its frames: {[bytes(f).hex() for f in client_frames[-3:]]})")
     # ---- follow-up -------------------------------------------------------
     if not D:
@@ -418,6 +486,11 @@ STALE = [
     struct.pack("<BHB4x", 0x60, IDX, SUB + 1), struct.pack("<BHBB3x", 0xA4, IDX, SUB + 1, 127),
     struct.pack("<BHBL", 0xC6, IDX, SUB + 1, 9), struct.pack("<BHBL", 0x42, IDX, SUB + 2, 0x04030201),
 ]
+# abort frames left over from an earlier transfer (own multiplexer, none, a neighbour's); kept apart so that
+# the first enumerated family and rand_case stay exactly what they were
+STALE_ABORT = [struct.pack("<BHBL", 0x80, IDX, SUB, 0x05040000), struct.pack("<BHBL", 0x80, 0, 0, 0x08000000),
+               struct.pack("<BHBL", 0x80, IDX, SUB + 1, 0x06020000)]
+STALE_ALL = STALE + STALE_ABORT
 CODES = [0x05040000, 0x06010002, 0x08000000, 0x00000000, 0xFFFFFFFF, 0x05030000]
 LENS = {"exp_dl": [1, 4], "seg_dl_size": [1, 4, 5, 7, 8, 14, 15, 22], "seg_dl_nosize": [1, 5, 7, 8, 14, 15, 22],
         "exp_ul": [1, 4], "exp_ul_nosize": [4], "seg_ul_size": [1, 5, 7, 8, 14, 15, 22],
@@ -436,35 +509,133 @@ def max_ordinal(kind, n):
     return min(8, 2 + (n + 6) // 7)
 
 
+def blk_ul_last(n):
+    """ordinal of the end response of an undisturbed block upload: initiate, the segments, end"""
+    return 1 + max(1, (n + 6) // 7)
+
+
+def ordinals(kind, n):
+    ks = list(range(0, max_ordinal(kind, n) + 1))
+    if kind == "blk_ul":
+        # long uploads: the last segments of the first sub-block, the first of the second, the end
+        # response and the first ordinal that does not exist
+        last = blk_ul_last(n)
+        ks += [k for k in range(last - 3, last + 2) if k > ks[-1]]
+        ks += [k for k in (127, 128, 129) if ks[-1] < k <= last + 1 and k not in ks]
+        ks.sort()
+    return ks
+
+
+def dists_for(n, k, i, slim=False, stale=None):
+    stale = STALE if stale is None else stale
+    dists = [{"what": "drop"}, {"what": "toggle"}, {"what": "dup_now"}, {"what": "dup_later"},
+             {"what": "late_before"}, {"what": "late_between"}]
+    dists += [{"what": "abort", "code": c} for c in (CODES if n <= 8 and not slim else CODES[:2])]
+    dists += [{"what": "cs", "delta": d} for d in range(0, 6 if n <= 8 or slim else 2)]
+    if not slim:
+        dists += [{"what": "mux", "delta": d} for d in (0, 1, 10, 17, 23)]
+    st_sel = stale if n in (1, 4, 7, 8) else stale[(i % 3)::3]
+    dists += [{"what": "stale_between", "stale": s} for s in st_sel]
+    if k == 0:
+        dists += [{"what": "stale_before", "stale": s} for s in st_sel]
+    return dists
+
+
+def peers_for(kind, n):
+    peers = ["ref"] if kind.startswith("blk") or kind in ("seg_dl_nosize", "exp_ul_nosize",
+                                                          "seg_ul_nosize") else ["ref", "canopen"]
+    if kind == "seg_ul_size" and n <= 4:
+        peers = ["ref"]       # canopen's server answers <= 4 bytes expedited
+    if kind == "seg_dl_nosize":
+        peers = ["ref", "canopen"]
+    return peers
+
+
+FOLLOW_LEN = [9, 3, 16, 2, 12, 20]
+
+
 def enum_cases():
     i = 0
     for kind in KINDS:
         for n in LENS[kind]:
             for k in range(0, max_ordinal(kind, n) + 1):
-                dists = [{"what": "drop"}, {"what": "toggle"}, {"what": "dup_now"}, {"what": "dup_later"},
-                         {"what": "late_before"}, {"what": "late_between"}]
-                dists += [{"what": "abort", "code": c} for c in (CODES if n <= 8 else CODES[:2])]
-                dists += [{"what": "cs", "delta": d} for d in range(0, 6 if n <= 8 else 2)]
-                dists += [{"what": "mux", "delta": d} for d in (0, 1, 10, 17, 23)]
-                st_sel = STALE if n in (1, 4, 7, 8) else STALE[(i % 3)::3]
-                dists += [{"what": "stale_between", "stale": s} for s in st_sel]
-                if k == 0:
-                    dists += [{"what": "stale_before", "stale": s} for s in st_sel]
-                for dist in dists:
-                    peers = ["ref"] if kind.startswith("blk") or kind in ("seg_dl_nosize", "exp_ul_nosize",
-                                                                          "seg_ul_nosize") else ["ref", "canopen"]
-                    if kind == "seg_ul_size" and n <= 4:
-                        peers = ["ref"]       # canopen's server answers <= 4 bytes expedited
-                    if kind == "seg_dl_nosize":
-                        peers = ["ref", "canopen"]
-                    for peer in peers:
+                for dist in dists_for(n, k, i):
+                    for peer in peers_for(kind, n):
                         i += 1
                         case = {"kind": kind, "len": n, "k": k, "dist": dist, "peer": peer, "salt": i % 9,
-                                "follow": FOLLOW[i % len(FOLLOW)], "follow_len": [9, 3, 16, 2, 12, 20][i % 6]}
+                                "follow": FOLLOW[i % len(FOLLOW)], "follow_len": FOLLOW_LEN[i % 6]}
                         if kind == "blk_ul":
                             case["size_ind"] = i % 2 == 0
                             case["crc_srv"] = i % 5 != 0
                         yield case
+
+
+def enum_follow_cases():
+    """The first family hands out peer and follow-up kind from one counter, so for the kinds run against
+    both peers each peer only ever meets half of the follow-up kinds: here the other half, for both."""
+    i = 0
+    for kind in KINDS:
+        for n in LENS[kind]:
+            peers = peers_for(kind, n)
+            if len(peers) < 2:
+                continue
+            for k in ordinals(kind, n):
+                for dist in dists_for(n, k, i):
+                    if dist["what"].startswith("stale") and bytes(dist["stale"]) not in STALE[(i % 3)::3]:
+                        i += len(peers)
+                        continue
+                    for peer in peers:
+                        i += 1
+                        yield {"kind": kind, "len": n, "k": k, "dist": dist, "peer": peer, "salt": (i + 4) % 9,
+                               "follow": FOLLOW[(i + 1) % len(FOLLOW)], "follow_len": FOLLOW_LEN[(i + 1) % 6]}
+
+
+def enum_stale_abort_cases():
+    """an abort frame left over from an earlier transfer, at every request of every kind"""
+    i = 0
+    for kind in KINDS:
+        for n in LENS[kind]:
+            for k in ordinals(kind, n):
+                if kind == "blk_ul" and k > 5:
+                    continue          # a block upload has 4 or 5 client requests
+                for what in ("stale_between", "stale_before")[:2 if k == 0 else 1]:
+                    for s in STALE_ABORT:
+                        for peer in peers_for(kind, n):
+                            i += 1
+                            case = {"kind": kind, "len": n, "k": k, "dist": {"what": what, "stale": s},
+                                    "peer": peer, "salt": i % 9, "follow": FOLLOW[(i // 2) % len(FOLLOW)],
+                                    "follow_len": FOLLOW_LEN[(i // 2) % 6]}
+                            if kind == "blk_ul":
+                                case["size_ind"] = i % 2 == 0
+                                case["crc_srv"] = i % 3 != 0
+                            yield case
+
+
+BLK_UL_LENS = {"quick": [1, 7, 8, 14, 15, 22, 889, 890, 1778],
+               "thorough": [1, 6, 7, 8, 13, 14, 15, 21, 22, 112, 113, 449, 455, 888, 889, 890, 1778, 1779]}
+
+
+def enum_blk_ul_cases(tier):
+    """Block upload with every response ordinal (segments of both sub-blocks and the end response included)
+    disturbed, without and with CRC support of the server and with / without announced size: without a CRC
+    the sequence numbers, the sub-commands and the command specifier are all a client has."""
+    i = 0
+    for n in BLK_UL_LENS[tier]:
+        ks = ordinals("blk_ul", n)
+        if n > 30:
+            last = blk_ul_last(n)
+            ks = [k for k in ks if k <= 3 or k >= last - 3 or k in (126, 127, 128)]
+        for k in ks:
+            for dist in dists_for(n, k, i, slim=True, stale=STALE_ALL):
+                if dist["what"] == "stale_between" and k > 5:
+                    continue          # a block upload has 4 or 5 client requests: no such injection point
+                for crc in (False, True):
+                    i += 1
+                    if crc and i % 3:
+                        continue      # the first family has CRC on in 4 of 5 cases already
+                    yield {"kind": "blk_ul", "len": n, "k": k, "dist": dist, "peer": "ref", "salt": i % 11,
+                           "size_ind": (i // 2) % 2 == 0, "crc_srv": crc,
+                           "follow": (FOLLOW + ["blk_ul", "blk_dl"])[i % 8], "follow_len": FOLLOW_LEN[i % 6]}
 
 
 @st.composite
@@ -498,7 +669,40 @@ def rand_case(draw):
             "follow_len": draw(st.integers(1, 40))}
 
 
+@st.composite
+def rand_blk_ul_case(draw):
+    """block upload only: any ordinal up to the end response, CRC off half of the time"""
+    n = draw(st.one_of(st.integers(1, 120), st.sampled_from([448, 449, 455, 456, 888, 889, 890, 896, 1778, 1779])))
+    what = draw(st.sampled_from(["drop", "abort", "toggle", "cs", "dup_now", "dup_later", "stale_between",
+                                 "stale_between", "late_before", "late_between"]))
+    dist = {"what": what}
+    if what == "abort":
+        dist["code"] = draw(st.sampled_from(CODES))
+    if what == "cs":
+        dist["delta"] = draw(st.integers(0, 5))
+    last = blk_ul_last(n)
+    if what == "stale_between":
+        # a frame that looks like one of this transfer's own: a segment (any sequence number, c flag),
+        # an initiate / end response, or anything
+        seg = st.builds(lambda c, q, d: bytes([c << 7 | q]) + d, st.integers(0, 1),
+                        st.one_of(st.integers(0, 8), st.integers(0, 127)), st.binary(min_size=7, max_size=7))
+        dist["stale"] = draw(st.one_of(st.sampled_from(STALE_ALL), seg, st.binary(min_size=8, max_size=8)))
+        k = draw(st.integers(0, 3))          # client requests: initiate, start, acknowledge(s), end
+    else:
+        k = draw(st.one_of(st.integers(0, min(last + 1, 12)), st.integers(max(0, last - 4), last + 1),
+                           st.integers(0, last + 1)))
+    return {"kind": "blk_ul", "len": n, "k": k, "dist": dist, "peer": "ref", "salt": draw(st.integers(0, 50)),
+            "size_ind": draw(st.booleans()), "crc_srv": draw(st.booleans()),
+            "follow": draw(st.sampled_from(FOLLOW + ["blk_dl", "blk_ul"])), "follow_len": draw(st.integers(1, 40))}
+
+
 def search(ctx):
     thorough = ctx.tier == "thorough"
     ctx.enumerate(enum_cases(), "transfer kind x boundary length x response ordinal x disturbance x peer")
+    ctx.enumerate(enum_follow_cases(), "kinds run against both peers x the follow-up kinds the first family "
+                                       "does not pair with that peer")
+    ctx.enumerate(enum_blk_ul_cases(ctx.tier), "block upload x length x every response ordinal (both "
+                                               "sub-blocks, end response) x disturbance x CRC off/on")
+    ctx.enumerate(enum_stale_abort_cases(), "every kind x length x request ordinal x stale abort frame x peer")
     ctx.hypothesis(rand_case(), 20000 if thorough else 1200)
+    ctx.hypothesis(rand_blk_ul_case(), 6000 if thorough else 400, salt=1)
